@@ -1,5 +1,6 @@
 SPECIFICATION Spec
 CONSTANTS
   Mode = "f32"
+  Tier = "quick"
 INVARIANTS ToyLaws Laws32 EmitInv
 CHECK_DEADLOCK FALSE
